@@ -9,7 +9,7 @@ The design's R3 (memcmp results used through an explicit comparison) was
 withdrawn: the existing test suite pins IP::matches_response's current use of a
 bare memcmp() result, so the rule would be a false alarm (DESIGN.md section 4).
 """
-from vlib import facts
+from vlib import facts, cfg, cond
 from rules import _bounds, c13
 
 PID = "C14"
@@ -71,6 +71,9 @@ def r2(db, rep):
     rep.rule("R6-header-only-reply", "a reply that consists of exactly the layer's header is not rejected by the size test: the smallest accepted "
                                      "length equals the size of the header structure the function overlays on the buffer", 10)
     r6(db, rep)
+    rep.rule("R7-no-derived-reads", "response matching does not depend on fields that only serialisation derives (next-protocol tags, lengths, "
+                                    "checksums): a request that was built but not yet serialised still holds stale values there", 10)
+    r7(db, rep)
     from vlib import formula
     fs = db.fns_named("Tins::IP::matches_response")
     if not fs:
@@ -455,3 +458,43 @@ def r6(db, rep):
                           "header (a bare TCP SYN/ACK, an ICMP echo reply without data ...) is never recognised" % (guard[1], S))
     if n < 10:
         rep.analysis_broken("only %d matches_response size tests with an overlaid header found" % n)
+
+
+def r7(db, rep):
+    from rules import c15
+    n = 0
+    for f in sorted(targets(db), key=lambda x: x["id"]):
+        if not f.get("body") or f["name"] != "matches_response" or (f.get("rec") or "").startswith("Tins::PDUCacher<"):
+            continue
+        rec = f.get("rec")
+        derived = set(fld for (r_, fld) in c15.DERIVED_FIELDS if r_ == rec or r_ in db.all_bases(rec))
+        n += 1
+        key = "%s:derived-reads" % f["qual"].replace("Tins::", "")
+        bad = None
+        unevaluated = set()
+        for x in facts.fn_nodes(f):
+            if x["k"] == "UnaryExprOrTypeTraitExpr":
+                for y in facts.walk(x):
+                    unevaluated.add(y["id"])
+        for x in facts.fn_nodes(f):
+            if x["k"] == "MemberExpr" and x.get("isfield") and x["id"] not in unevaluated:
+                b = x
+                while b["k"] == "MemberExpr" and b.get("c"):
+                    b = facts.strip_all(b["c"][0])
+                if b["k"] != "CXXThisExpr":
+                    continue
+                path = facts.expr_str(x).replace("this->", "")
+                if path in derived:
+                    # a next-protocol tag is the user's own value as long as there is no inner layer to derive it from
+                    gq = cfg.FnCFG(f)
+                    no_inner = any(op == "false" and "inner_pdu()" in facts.expr_str(l) for op, l, r in cond.guards_facts(gq, gq.pos(x)))
+                    if not no_inner:
+                        bad = (x, path)
+        if bad:
+            rep.violation("R7-no-derived-reads", key, facts.loc(f, bad[0]),
+                          "matching reads `%s`, which is only brought up to date by serialisation (%s): a request that has not been serialised "
+                          "since it was built or edited rejects its own mirrored reply" % (bad[1], c15.DERIVED_FIELDS.get((rec, bad[1]), "derived")))
+        else:
+            rep.ok("R7-no-derived-reads", key, facts.loc(f), "reads none of the %d serialiser-derived fields" % len(derived))
+    if n < 10:
+        rep.analysis_broken("only %d matches_response functions" % n)
